@@ -745,6 +745,8 @@ class Evaluator:
                 if h is not None:
                     return h
                 raise Unsupported('multi-dimensional index on %r (line %s)' % (base, getattr(node, 'lineno', '?')))
+            if type(sl).__name__ == 'VMat':
+                return self.list_gather_by_matrix(base, sl, st, node)
             return self.list_get(base, as_int(sl), st, node)
         if isinstance(base, VRange) and not isinstance(sl, VSlice):
             i = as_int(sl)
